@@ -31,7 +31,11 @@ def make_config(seed, tier, index=None):
     p, pr, ac, fe = GRID[index % len(GRID)] if (tier == "thorough" and index is not None) else r.choice(GRID)
     return {"seed": seed, "prefix": p, "principal": pr, "autocreate": ac, "frontend": fe, "strict": True, "listing": True,
             "restarts": r.randint(0, 3), "entry": r.choice(["root", "root", "wk-caldav", "wk-carddav"]), "writes": r.randint(1, 4),
-            "recreate": r.random() < 0.35}
+            "recreate": r.random() < 0.35,
+            # collections that arrived as bare repositories (git clone --bare / push) below the home sets
+            "bare_collections": r.random() < 0.4,
+            # first start with --autocreate only, a later restart with --defaults
+            "upgrade_to_defaults": ac == "yes" and r.random() < 0.5}
 
 
 class DiscoRun:
@@ -190,22 +194,61 @@ class DiscoRun:
                 return
         if len(self.samples) < 1:
             self.samples.append({"layout": self.layout(), "entry": c["entry"], "restarts": c["restarts"], "reached": found})
-        for i in range(c["restarts"] + 1):
+        restarts = c["restarts"]
+        if (c.get("bare_collections") or c.get("upgrade_to_defaults")) and restarts == 0:
+            restarts = 1
+        for i in range(restarts + 1):
             self.write_data(found, i)
-            if i == c["restarts"]:
+            if i == restarts:
                 break
+            if i == 0 and c.get("bare_collections") and len(found["homes"]) >= 2:
+                self.add_bare_collections(found)
+            if i == 0 and c.get("upgrade_to_defaults"):
+                w.cfg["autocreate"] = "defaults"
+                w.srv.autocreate = "defaults"
+                self.ops.append({"op": "config", "autocreate": "defaults"})
             w.restart()
             self.count("fault.restart")
             self.ops.append({"op": "restart"})
             again = self.discover("after restart %d" % (i + 1))
             if again is None:
                 return
+            if i == 0 and c.get("bare_collections") and getattr(self, "bare_targets", None):
+                for key, tgt in self.bare_targets.items():
+                    if tgt not in again[key]:
+                        self.v("C18.bare-collection-not-reachable", "%s: the bare repository collection %s exists (typed %s) but discovery does not reach it" % (self.layout(), tgt, key), step="collection", which=key)
+                self.count("bare_collections_checked", len(self.bare_targets))
+            if i == 0 and c.get("upgrade_to_defaults") and c["frontend"] == "aiohttp":
+                # xandikos.web.main() calls create_principal(create_defaults=True) on every start;
+                # (xandikos/wsgi.py only does so when the principal directory is missing)
+                if not any(t.endswith("/calendar/") for t in again["calendars"]) or not any(t.endswith("/addressbook/") for t in again["addressbooks"]):
+                    self.v("C18.defaults-not-created-on-later-start", "%s: restart with --defaults after a first start with --autocreate: calendars=%s addressbooks=%s" % (self.layout(), again["calendars"], again["addressbooks"]), step="collection")
             for key in ("calendars", "addressbooks"):
                 lost = set(found[key]) - set(again[key])
                 if lost:
                     self.v("C18.collection-lost-after-restart", "%s: %s no longer reachable after restart %d" % (self.layout(), sorted(lost), i + 1), step="restart", which=key)
             self.verify_data("restart %d" % (i + 1))
             found = again
+
+    def add_bare_collections(self, found):
+        """Behind the server's back (it is about to restart): bare repositories below the home sets."""
+        import os
+        import urllib.parse
+
+        from ..simfs import FS
+        from ..world import preseed_collection
+
+        a = FS.active
+        FS.active = False
+        try:
+            self.bare_targets = {}
+            pre = self.world.prefix.rstrip("/")
+            for key, home, name, kind in (("calendars", found["homes"][0], "barecal", "calendar"), ("addressbooks", found["homes"][1], "barebook", "addressbook")):
+                rel = urllib.parse.unquote(home[len(pre):]) + name + "/"
+                preseed_collection(self.arena.root, rel, "bare", kind)
+                self.bare_targets[key] = home + name + "/"
+        finally:
+            FS.active = a
 
     def recreate_as_other_type(self, found):
         """A collection is created, listed, deleted and created again at the
